@@ -103,6 +103,10 @@ structure EnumDecl where
   declPrefix : Option String := none
   defaultPrefix : String
   options : List String
+  /-- description of the enum -/
+  description : String := ""
+  /-- descriptions of the options, by position (`""` / missing = none) -/
+  descs : List String := []
   deriving DecidableEq, Repr, Inhabited
 
 /-- The list-rules message of a field (filter / sort / search settings). `text` is the whole
